@@ -369,8 +369,9 @@ func (n *FullNode) Run(parentCtx context.Context) error {
 	}
 
 	// only the first error is propagated
-	// any error is an issue, so blocking is not a problem
-	errCh := make(chan error, 1)
+	// one slot per worker: once the node is shutting down nobody reads errCh any more,
+	// so a worker reporting an error then must not block in its send (wg.Wait below would hang)
+	errCh := make(chan error, 5)
 	// prepare to join the go routines later
 	var wg sync.WaitGroup
 	spawnWorker := func(f func()) {
